@@ -112,7 +112,8 @@ Qed.
 Lemma lookup1_guarded : forall d k, lookup1 true d k <> Panic.
 Proof.
   intros d k. unfold lookup1.
-  destruct (match find (fun e => fst e =? k) (d1_proposers d) with Some (_, e) => e | None => d1_default d end); discriminate.
+  destruct (find (fun e => fst e =? k) (d1_proposers d)) as [[? [p|]]|]; try discriminate;
+    destruct (d1_default d); discriminate.
 Qed.
 
 Definition safe (c : option config) : Prop := forall a k, lookup true c a k <> Panic.
@@ -160,7 +161,15 @@ Proof.
   repeat split; eexists; repeat split; try reflexivity; vm_compute; discriminate.
 Qed.
 
+Lemma v1_null_entry_uses_default :
+  let d := {| d1_fields_ok := true; d1_proposers := [(1, None)];
+              d1_default := Some {| p1_builder := Some {| b1_enabled := true; b1_relays := [7] |} |} |} in
+  decode true (DV1 d) = Ok (CV1 d) /\ lookup false (Some (CV1 d)) 0 1 = Ok [7] /\ lookup true (Some (CV1 d)) 0 1 = Ok [7].
+Proof. repeat split; reflexivity. Qed.
+
+(* the nil check of the lookup is what protects a configuration without a default entry (the
+   unmarshaller refuses such a document, so only a configuration built in code can have one) *)
 Lemma v1_nil_guard_necessary :
-  let d := {| d1_fields_ok := true; d1_proposers := [(1, None)]; d1_default := Some {| p1_builder := None |} |} in
-  decode true (DV1 d) = Ok (CV1 d) /\ lookup false (Some (CV1 d)) 0 1 = Panic /\ lookup true (Some (CV1 d)) 0 1 = Ok [].
+  let d := {| d1_fields_ok := true; d1_proposers := [(1, None)]; d1_default := None |} in
+  lookup false (Some (CV1 d)) 0 1 = Panic /\ lookup true (Some (CV1 d)) 0 1 = Ok [].
 Proof. repeat split; reflexivity. Qed.
